@@ -123,7 +123,7 @@ func TestVerifE3HalfOpen(t *testing.T) {
 		opts.Logger = lg
 		opts.LogLevel = LOG_INFO
 		opts.DataPath = t.TempDir()
-		tcpAddr, httpAddr, nsqd := mustStartNSQD(opts)
+		tcpAddr, httpAddr, nsqd := vfStartNSQD(opts)
 		base := "http://" + httpAddr.String()
 		hc := &http.Client{Timeout: 20 * time.Second}
 
